@@ -2,7 +2,7 @@
 
 Runs the repository's own generators on the shipped CSVs (in a private mirror), diffs their output against the shipped
 files, walks the table compiled into the library, and looks every row (and many non-rows) up through is_tld()."""
-import csv, io, os, random, re, shutil, subprocess, collections
+import csv, io, json, os, random, re, shutil, subprocess, collections
 from .. import core, ctx as _ctx, build, driver, model as _model, tldgen as TG, oracle_domain as OD
 
 PROP = "C11"
@@ -154,6 +154,17 @@ def main(tier, seed):
         for t in itertools.product(string.ascii_lowercase.encode(), repeat=n):
             probes.add(bytes(t))
     probes.update(x.encode() for x in HISTORIC)
+    # unlisted labels with the same length and the same digest as a row under well-known 32-bit string hashes
+    # (tools/gen_tld_collisions.py): a look-up that compares digests instead of names finds them
+    try:
+        col = json.load(open(os.path.join(core.VERIF, "vlib", "data", "tld_collisions.json")))
+    except OSError:
+        col = {}
+    for name in sorted(col):
+        for lab, row in col[name]:
+            probes.add(lab.encode())
+            probes.add(lab.upper().encode())
+            rep.counters["lookup.digest-collision-probes"] += 1
     probes = sorted(probes)
     cmap = {w[0]: w[1] for w in want}
     for part in core.pmap(_run, [(w_istld, (exe, probes[i:i + 20000])) for i in range(0, len(probes), 20000)]):
